@@ -1449,6 +1449,17 @@ impl fmt::Debug for Reader {
   }
 }
 
+#[cfg(rustdds_verif)]
+impl Reader {
+  pub(crate) fn verif_matched_writers(&self) -> Vec<[u8; 16]> {
+    self
+      .matched_writers
+      .keys()
+      .map(|g| crate::verif::reader_rig::guid_to_bytes(*g))
+      .collect()
+  }
+}
+
 #[cfg(test)]
 mod tests {
   use std::sync::RwLock;
